@@ -710,11 +710,22 @@ theorem clientUpdate_none (c : Cfg) (s : St) (x : Cid) (v : Val) (sd : Option Ad
   · have : some v ≠ s.value x := fun g => hch g.symm
     simp [hch, this]
 
-theorem invL_putVal (c : Cfg) (h12 : c.fix12 = true) (hcb : c.cb x = Callback.none) (s : St) (p : ObjId) (v : Val) (h : InvL c s)
-    (hA : InvA s) (hU : UniqInv s) (hp : p < s.nobj) (hpl : (s.obj p).lost = false) : InvL c (putVal c s p x v) := by
+/-- the tail of `putVal`: the stale-entry discard, then the writer has learned `v` from its own
+    acknowledged write -/
+def finishPut (c : Cfg) (t : St) (p : ObjId) (a : Addr) (x : Cid) (v : Val) : St :=
+  { (discardStale c t a x) with
+    obj := upd (discardStale c t a x).obj p
+      { (discardStale c t a x).obj p with learned := upd ((discardStale c t a x).obj p).learned x (some v) } }
+
+theorem putVal_eq (c : Cfg) (s : St) (p : ObjId) (x : Cid) (v : Val) :
+    putVal c s p x v = finishPut c (clientUpdate c s x v (some (s.obj p).addr)) p (s.obj p).addr x v := rfl
+
+/-- a plain write (`client_update_value` = assignment + change test + notify) followed by the tail -/
+theorem invL_finish_writeVal (c : Cfg) (h12 : c.fix12 = true) (s : St) (p : ObjId) (a : Addr) (x : Cid) (v : Val) (h : InvL c s)
+    (hA : InvA s) (hU : UniqInv s) (hp : p < s.nobj) (hpl : (s.obj p).lost = false) (ha : (s.obj p).addr = a) :
+    InvL c (finishPut c (writeVal c s x v (some a)) p a x v) := by
   intro q y hs
-  simp only [putVal, clientUpdate_none c s x v _ hcb] at hs ⊢
-  generalize ha : (s.obj p).addr = a at hs ⊢
+  simp only [finishPut] at hs ⊢
   -- the three stages
   generalize hs4 : writeVal c s x v (some a) = s4 at hs ⊢
   have hreg4 : s4.reg = s.reg := by rw [← hs4]; exact writeVal_reg c s x v (some a)
